@@ -19,7 +19,16 @@ type evalCtx struct {
 	name    string
 	ctx     *types.XObject // binds a, b, f
 	renamed *types.XObject // the same with a's value bound to z instead
+	// the same with a's value bound to a.<member> instead (a is an object holding only that member):
+	// the context a template renamed a -> a.<member> has to be evaluated in
+	renamedTo map[string]*types.XObject
 }
+
+// extMembers are the members m of the renames a -> a.m (the shape of the 13.3 migration's
+// webhook -> webhook.json: the new name is the old one plus a lookup). `a` and `b` are names the
+// vocabulary can already put behind `a.` (as `a.a`, and in upper case as `a.B`), so references that
+// are followed by a genuine member of that name before the rename are enumerated.
+var extMembers = []string{"a", "b"}
 
 func num(s string) *types.XNumber { return types.NewXNumber(decimal.RequireFromString(s)) }
 
@@ -79,6 +88,7 @@ func buildContexts() []evalCtx {
 	}
 	var out []evalCtx
 	for _, sp := range specs {
+		sp.m[longName] = types.NewXText("bound to the long name")
 		r := map[string]types.XValue{}
 		for k, v := range sp.m {
 			if k == "a" {
@@ -87,7 +97,19 @@ func buildContexts() []evalCtx {
 				r[k] = v
 			}
 		}
-		out = append(out, evalCtx{name: sp.name, ctx: types.NewXObject(sp.m), renamed: types.NewXObject(r)})
+		to := map[string]*types.XObject{}
+		for _, m := range extMembers {
+			rm := map[string]types.XValue{}
+			for k, v := range sp.m {
+				if k == "a" {
+					rm["a"] = types.NewXObject(map[string]types.XValue{m: v})
+				} else {
+					rm[k] = v
+				}
+			}
+			to[m] = types.NewXObject(rm)
+		}
+		out = append(out, evalCtx{name: sp.name, ctx: types.NewXObject(sp.m), renamed: types.NewXObject(r), renamedTo: to})
 	}
 	return out
 }
@@ -383,15 +405,35 @@ const (
 )
 
 type exprInfo struct {
-	printed   string
-	nodes     uint32
-	classes   [4]string // value class under env 0 in each context
-	errDiffer bool      // both sides failed but with different messages (counted, not a violation)
-	scannedT1 bool      // the scanner saw `x @(e) y` as body, expression e, body
-	hasRefA   bool
-	isPath    bool
-	noEval    bool // contains both an exponentiation and a number >= 100 or of more than 3 digits: not evaluated (see Assumptions)
-	noEvalDif bool // ... and its printed form has a different tree
+	printed     string
+	nodes       uint32
+	classes     [4]string // value class under env 0 in each context
+	errDiffer   bool      // both sides failed but with different messages (counted, not a violation)
+	scannedT1   bool      // the scanner saw `x @(e) y` as body, expression e, body
+	hasRefA     bool
+	isPath      bool
+	noEval      bool // contains both an exponentiation and a number >= 100 or of more than 3 digits: not evaluated (see Assumptions)
+	noEvalDif   bool // ... and its printed form has a different tree
+	longAtom    bool // contains a text literal, name or number of more than 64 characters
+	extRenames  int  // renames a -> a.m whose result was compared with the reference model
+	extFollowed int  // ... of an expression in which a reference to a is directly followed by a member called m
+}
+
+func hasLongAtom(x excellent.Expression) bool {
+	long := false
+	x.Visit(func(e excellent.Expression) {
+		switch t := e.(type) {
+		case *excellent.TextLiteral:
+			long = long || len(t.Value.Native()) > 64
+		case *excellent.ContextReference:
+			long = long || len(t.Name) > 64
+		case *excellent.DotLookup:
+			long = long || len(t.Lookup) > 64
+		case *excellent.NumberLiteral:
+			long = long || len(t.Value.Native().String()) > 64
+		}
+	})
+	return long
 }
 
 func parse(e string) (x excellent.Expression, err error, panicked string) {
@@ -653,6 +695,7 @@ func checkExpr(e string, stages int) (vs []viol, info exprInfo) {
 	expectRenamed, _, hasFreeA := shapeOf(x, renameAZ)
 	info.hasRefA = hasFreeA
 	info.isPath = isPathExpr(e)
+	info.longAtom = hasLongAtom(x)
 	// x ^ 1111111 takes minutes and gigabytes, 111 ^ 111 ^ 1.50 minutes (C04's subject): a tree with an
 	// exponentiation and a number literal >= 100 or of more than 3 digits is compared, not evaluated
 	info.noEval = nodes&(1<<nExp) != 0 && maxDigits(x) > 3
@@ -785,6 +828,63 @@ func checkExpr(e string, stages int) (vs []viol, info exprInfo) {
 			} else if info.hasRefA {
 				add("tpl:rename-changes-wrong-references:nothing-renamed:"+shapeFor("tpl:rename-changes-wrong-references:nothing-renamed", stageStruct), "%q refers to a, but rename a->z returns it unchanged", T)
 			}
+			// rename to the old name plus a lookup (a -> a.m, the shape of Migrate13_3's webhook -> webhook.json):
+			// exactly the references to the context's a become a.m - also one that is already followed by a
+			// member called m - and the result means under the context with a's value bound to a.m what the
+			// original means under the original context (a result that is returned unchanged is compared like any other)
+			if info.hasRefA && len(vs) == 0 {
+				var orig []string // the original's value per context (default environment), computed once
+				for _, m := range extMembers {
+					op := "tpl:rename-to-lookup(a->" + extTo(m) + ")"
+					rx, errX, pnX := refactorT(T, tops, refactor.ContextRefRename("a", extTo(m)))
+					switch {
+					case pnX != "":
+						add(op+"-panics:"+mc.PanicSite(pnX), "refactor.Template(%q, rename a->%s) panics: %s", T, extTo(m), pnX)
+					case errX != nil:
+						add(op+"-errors", "refactor.Template(%q, rename a->%s) fails: %v", T, extTo(m), errX)
+					case !strings.HasPrefix(rx, "x @(") || !strings.HasSuffix(rx, ") y"):
+						add(op+"-breaks-frame:"+shapeFor(op+"-breaks-frame", stageStruct), "rename a->%s of %q gives %q", extTo(m), T, rx)
+					default:
+						ex := rx[len("x @(") : len(rx)-len(") y")]
+						if !isOneExpr(scan(rx, tops), "x ", ex, " y") {
+							add(op+"-not-rescanned-as-expression:"+shapeFor(op+"-not-rescanned", stageStruct), "rename a->%s of %q gives %q, which the scanner no longer sees as text, one expression, text", extTo(m), T, rx)
+						} else if xx, errp, pnp := parse(ex); pnp != "" || errp != nil {
+							add(op+"-unparseable:"+shapeFor(op+"-unparseable", stageStruct), "rename a->%s of %q gives %q whose expression does not parse: %v %s", extTo(m), T, rx, errp, pnp)
+						} else {
+							xe, _, _ := parse(e)
+							info.extRenames++
+							for _, r := range extRefsOf(xe, m) {
+								if strings.HasPrefix(r.desc, "a:") && r.lookups > 0 {
+									info.extFollowed++
+									break
+								}
+							}
+							xe = renameFreeExt(xe, m)
+							d := ""
+							if shapeStr(xx) != shapeStr(xe) { // identical trees have identical references
+								d = diffExtRefs(xe, xx, m)
+							}
+							if d != "" {
+								add(op+"-changes-wrong-references:"+d, "rename a->%s of %q gives %q: expected syntax tree %s, got %s", extTo(m), T, rx, clip(shapeStr(xe)), clip(shapeStr(xx)))
+							} else if !info.noEval {
+								env := theEnvs[0]
+								if orig == nil {
+									for _, c := range theCtxs {
+										f, _, _ := evalTree(env, c.ctx, x)
+										orig = append(orig, f)
+									}
+								}
+								for ci, c := range theCtxs {
+									if f2, _, _ := evalTree(env, c.renamedTo[m], xx); f2 != orig[ci] {
+										add(op+"-changes-meaning:"+joinDiff(diffTrees(xe, xx)), "rename a->%s of %q gives %q, which under the context with a's value bound to %s differs in context %s: original %s, rewritten %s", extTo(m), T, rx, extTo(m), c.name, clip(orig[ci]), clip(f2))
+										break
+									}
+								}
+							}
+						}
+					}
+				}
+			}
 		}
 		if len(vs) > 0 {
 			return
@@ -813,6 +913,17 @@ func checkExpr(e string, stages int) (vs []viol, info exprInfo) {
 				add("tpleval:refactor-panics:"+mc.PanicSite(pn0+pn1+pnR), "refactor.Template(%q) panics: %s", T, pn0+pn1+pnR)
 				continue
 			}
+			rx := map[string]string{} // renamed a -> a.m
+			if info.hasRefA {
+				for _, m := range extMembers {
+					r, _, pnX := refactorT(T, tops, refactor.ContextRefRename("a", extTo(m)))
+					if pnX != "" {
+						add("tpleval:refactor-panics:"+mc.PanicSite(pnX), "refactor.Template(%q, rename a->%s) panics: %s", T, extTo(m), pnX)
+						continue
+					}
+					rx[m] = r
+				}
+			}
 			for _, c := range theCtxs {
 				o := evalTemplate(env, c.ctx, T)
 				if r0 != T {
@@ -831,6 +942,15 @@ func checkExpr(e string, stages int) (vs []viol, info exprInfo) {
 				if oR := evalTemplate(env, c.renamed, rr); oR != o {
 					k := "tpleval:rename-changes-meaning:" + t.name
 					add(k+":"+shapeFor(k, stageEval), "template %q evaluates to %q in context %s; renamed a->z it is %q which evaluates to %q with a's value bound to z", T, o, c.name, rr, oR)
+				}
+				// ... and likewise the template renamed a -> a.m under the context in which a's value is bound to a.m
+				for _, m := range extMembers {
+					if r, ok := rx[m]; ok {
+						if oX := evalTemplate(env, c.renamedTo[m], r); oX != o {
+							k := "tpleval:rename-to-lookup(a->" + extTo(m) + ")-changes-meaning:" + t.name
+							add(k+":"+shapeFor(k, stageEval), "template %q evaluates to %q in context %s; renamed a->%s it is %q which evaluates to %q with a's value bound to %s", T, clip(o), c.name, extTo(m), clip(r), clip(oX), extTo(m))
+						}
+					}
 				}
 			}
 		}
